@@ -268,7 +268,24 @@ pub fn run(sc: &C30Scenario, cmds_run: &mut u64) -> Result<Outcome, String> {
         let fake = world::CmdOut { exit: r.procs[i].exit, stdout: r.procs[i].stdout.clone(), stderr: r.procs[i].stderr.clone(), ..Default::default() };
         let hobs = world::observe(&fake, &dir, &prj.files);
         let emits = hist::is_emitting(args) && args.first().map(|x| x.as_str()) == Some("build");
+        // `veryl test` rewrites the filelist in its own (absolute) format: when a test
+        // runs alongside, whose filelist is on disk at the end depends on who finished last.
+        let (mut hobs, mut robs) = (hobs, robs);
+        if sc.cmds.iter().any(|(_, a)| a.first().map(|x| x.as_str()) == Some("test")) {
+            hobs.outputs.retain(|k, _| !(k.ends_with(".f") || k.ends_with(".list.rb")));
+            robs.outputs.retain(|k, _| !(k.ends_with(".f") || k.ends_with(".list.rb")));
+        }
         if let Some((class, detail)) = world::compare(&hobs, &robs, emits) {
+            // A divergence explained by the listed C04 finding (it needs no concurrency).
+            let whole = hist::Scenario {
+                project: sc.projects[*pi].clone(),
+                steps: sc.prep.iter().cloned().chain(std::iter::once(Step::Cmd { args: args.clone() })).collect(),
+                seed: 0,
+            };
+            let v = hist::Violation { class: class.clone(), step: whole.steps.len() - 1, detail: format!("{args:?}: {detail}") };
+            if *pi == 0 && crate::c04::known_tag(&whole, &v).is_some() {
+                continue;
+            }
             outcome.violation = Some((format!("result:{class}"), format!("p{i} {:?} in {}: {detail}", args, prj.name)));
             return Ok(outcome);
         }
